@@ -74,6 +74,17 @@ def iterRem (p : Nat → Bool) : Nat → Store → Nat → List Nat × Store
       let r := iterRem p f s' (s'.next curr)
       (k :: r.1, r.2)
 
+/-- generator `__reversed__` (`curr = end[1]; while curr is not end: yield curr[0]; curr = curr[1]`) whose consumer discards
+    the element being visited when `p key`; `curr = curr[1]` is read *after* the consumer ran, as the generator resumes -/
+def reversedRem (p : Nat → Bool) : Nat → Store → Nat → List Nat × Store
+  | 0, s, _ => ([], s)
+  | f+1, s, curr =>
+    if curr = 0 then ([], s) else
+      let k := s.key curr
+      let s' := if p k then discard k s else s
+      let r := reversedRem p f s' (s'.prev curr)
+      (k :: r.1, r.2)
+
 def len (s : Store) : Nat := (toList s).length
 
 /-- the two mutators as data, so that "any state reachable by add/discard" is a fold from `empty` -/
@@ -81,12 +92,14 @@ inductive POp where
   | add (k : Nat)
   | discard (k : Nat)
   | iterRm (ks : List Nat)      -- iterate, the consumer discards the visited element when it is in `ks`
+  | riterRm (ks : List Nat)     -- the same over `reversed(s)`
   deriving Repr
 
 def applyP : POp → Store → Store
   | .add k, s => add k s
   | .discard k, s => discard k s
   | .iterRm ks, s => (iterRem (fun k => decide (k ∈ ks)) s.fresh s (s.next 0)).2
+  | .riterRm ks, s => (reversedRem (fun k => decide (k ∈ ks)) s.fresh s (s.prev 0)).2
 
 def runP (ops : List POp) : Store := ops.foldl (fun s op => applyP op s) empty
 
@@ -95,6 +108,7 @@ def absP : POp → List Nat → List Nat
   | .add k, l => if k ∈ l then l else l ++ [k]
   | .discard k, l => l.erase k
   | .iterRm ks, l => l.filter (fun k => !(decide (k ∈ ks)))
+  | .riterRm ks, l => l.filter (fun k => !(decide (k ∈ ks)))
 
 def absRunP (ops : List POp) : List Nat := ops.foldl (fun l op => absP op l) []
 
